@@ -109,6 +109,10 @@ def run(ctx, chk):
                             cap = sizes.get(ty)
                         elif b[0] == "ld":
                             cap = n_[1] + off   # copy into a field region of a heap object of matching struct type (sizeof-driven)
+                        elif b[0] == "idx" and isinstance(b[2], str):
+                            # whole-element assignment into a slot of a table (`data[i] = (struct cbor_pair){...}`): the element
+                            # is the object; that slot i exists is the capacity rule's business (C01.capacity-field, C12.capacity)
+                            cap = sizes.get(b[2].lstrip("%"))
                     if ok and cap is not None:
                         ok = off + n_[1] <= cap
                     nm += 1
@@ -318,4 +322,19 @@ def run(ctx, chk):
                               "passed to libc free (undefined behaviour), shared with C13.ext")
     import rules as _r1
     _r1.check_no_bypass(chk, "C01.no-bypass", prog)
+    # every container block is sized count * element size behind _cbor_safe_to_multiply: a guard that lets a wrapped
+    # product through hands out a block smaller than the capacity recorded for it (shared with C20.guard-semantics)
+    chk.rule("C01.capacity-field", "a block installed as a container's storage comes with its element capacity, and a block "
+                                   "installed into an existing container still covers the elements counted so far (shared with C12)")
+    from props.c12 import check_capacity_field
+    check_capacity_field(chk, "C01.capacity-field", prog, eff, cache)
+    import guard_rules as _g1
+    _g1.check_guard_semantics(chk, prog, eff, cache, "C01.alloc-guard")
+    chk.rule("C01.no-access-after-free", "on every path of every library function (unit-internal helpers and the stack module inlined) no load or "
+             "store addresses a block after it was handed to the installed free, and no block is handed to it twice (memory safety of decoding and releasing)")
+    from props.c06 import check_no_access_after_free
+    check_no_access_after_free(chk, "C01.no-access-after-free", prog, eff)
+    chk.rule("C01.slot-reads", "every loop that reads the slot table of a container (copy, describe, size, serialize, release) is bounded "
+             "by the element count, never by the capacity: slots beyond the count hold whatever the allocator returned")
+    _r1.check_slot_reads_below_count(chk, "C01.slot-reads", prog, eff)
     chk.exhaustive = True
